@@ -43,7 +43,7 @@ class LinkMonitor(BaseMonitor):
         return BaseMonitor.construct(self, ex, e, st, fr)
 
     def call(self, ex, e, cu, cq, cn, ob, objloc, av, st, fr):
-        if cn == 'raise' and e.get('cc') and e.get('static'):
+        if cn in ('raise', 'raise_nested') and e.get('cc') and e.get('static'):
             cc = e['cc']
             who = cc['a'][0].get('s') if cc.get('a') else '?'
             def g(): yield Thrown('must:' + who), st
@@ -75,6 +75,9 @@ class LinkMonitor(BaseMonitor):
             raise Unmodelled('primitive advance in a combinator body (%s)' % e.get('loc'))
         return BaseMonitor.call(self, ex, e, cu, cq, cn, ob, objloc, av, st, fr)
 
+    def answers_for(self, key, n):
+        return peg.answers_for(key, n)
+
     def ask(self, ex, e, who, inp, mode, st, commit=True):
         A = 1
         for ta in e.get('cta', []):
@@ -104,7 +107,7 @@ class LinkMonitor(BaseMonitor):
                 st.x['trunc'] = True
                 yield Thrown('TRUNC'), st; return
             n = st.x['npos']
-            for ans in peg.answers_for(key, n):
+            for ans in self.answers_for(key, n):
                 s = st.copy(); s.x['orc'][key] = ans
                 if ans == ('succ', n + 1): s.x['npos'] = n + 1
                 yield apply(s, ans), s
